@@ -18,6 +18,8 @@ TEXT = ("Typestate analysis of the four-state field Delta.status, exhaustive ove
         "of the legal transition table. A4: refresh re-examines Blocked blocks before marking, reload* start from an "
         "empty map, every Ok return lies behind the marking and apply passes, and no block is parsed into the block map "
         "after a marking step has run. A5: the object-availability predicate returns true only on index membership or a verified read. "
+        "A7: the marking pass runs the dependency check for every Pending block of the whole block map, and the applier inserts every "
+        "record of the block it applies. "
         "Does not decide equality of incremental refreshes with a full reload over histories.")
 TECHNIQUE = 'static analysis over rustc MIR: typestate of Delta.status (edge dominance + reachability with pass edges removed, loop and all()/any() closure forms), transition-table extraction, sibling agreement of the three loaders'
 TRUSTED = ["rustc nightly MIR", "derive(PartialEq) on the fieldless enum Status compares discriminants",
